@@ -410,6 +410,7 @@ type muState struct {
 	locked  bool
 	readers int
 	vc      vclock
+	rvc vclock // released by readers: acquired by the next writer only (readers do not synchronise with each other)
 }
 
 func (ps *pathState) wgOf(p *value) *wgState {
